@@ -104,7 +104,7 @@ pub fn judge_decode(input: &[u8], with_storage: bool, loc: &mut Local) {
     loc.transitions += 1;
     loc.traces += 1;
     let refv = decode(input, with_storage);
-    loc.state(mix(fnv64(input), with_storage as u64), !matches!(refv, RefVerdict::Incomplete) || input.len() > 3);
+    loc.state(mix(loc.input_hash(input), with_storage as u64), !matches!(refv, RefVerdict::Incomplete) || input.len() > 3);
     let got = catch(|| dlt_message(input, None, with_storage).map(|(rest, pm)| (input.len() - rest.len(), pm)));
     let details = || json!({"input_hex": hex_short(input), "input_len": input.len(), "with_storage_header": with_storage, "reference": format!("{:?}", refv).chars().take(600).collect::<String>()});
     let got = match got {
@@ -236,5 +236,53 @@ pub fn run(ctx: &Ctx) {
             let (input, mode) = variant(gen(i / VARIANTS), i % VARIANTS);
             judge_decode(&input, mode, loc);
         }));
+    }
+    {
+        let lows = prefix_sweep_lows(ctx.tier);
+        let lows = &lows;
+        let tier = ctx.tier;
+        ctx.run_family(Family::new("c02.dec.prefix_sweep", prefix_sweep_size(ctx.tier), format!("{} (LEN low bytes {:02x?})", PREFIX_SWEEP_ABOUT, lows), move |i, loc| {
+            loc.input_hash_override = Some(i);
+            with_prefix_sweep_case(i, tier, lows, |input, mode| judge_decode(input, mode, loc));
+        }).distinct());
+    }
+    // history: the verdict on b must not depend on what was parsed before (caches, memo tables,
+    // thread-local scratch state): for all ordered pairs (a, b) over a diverse input set, parse a,
+    // then b twice, and compare both verdicts on b with the reference
+    {
+        let mut set: Vec<(Vec<u8>, bool)> = vec![];
+        for f in decode_inputs(Tier::Quick) {
+            let stride: u64 = match f.name.as_str() {
+                "dialect.type_info" => 79,
+                "canon.u.single_arg" => 17,
+                "canon.u.value_sweep" => 251,
+                "dialect.strings" | "dialect.noar_len" => 173,
+                "dialect.ids" | "dialect.msin_payload_len" => 373,
+                "mut.d1" => 1009,
+                "canon.u.msin" | "canon.u.htyp" => 73,
+                "concat" => 101,
+                _ => 0,
+            };
+            if stride == 0 {
+                continue;
+            }
+            let stride = stride * ctx.tier.pick(2, 1);
+            let mut i = 0;
+            while i < f.size {
+                let (b, mode) = variant((f.gen)(i), i % VARIANTS);
+                if b.len() <= 400 {
+                    set.push((b, mode));
+                }
+                i += stride;
+            }
+        }
+        let n = set.len() as u64;
+        let set = &set;
+        ctx.run_family(Family::new("c02.dec.history", n * n, format!("all {}^2 ordered pairs (a, b) over {} diverse inputs (valid and invalid type-info words, canonical and dialect encodings, mutated and concatenated messages): parse a, then b twice on the same thread; both verdicts on b must equal the reference's", n, n), move |i, loc| {
+            let (a, b) = (&set[(i / n) as usize], &set[(i % n) as usize]);
+            let _ = catch(|| dlt_message(&a.0, None, a.1).map(|_| ()));
+            judge_decode(&b.0, b.1, loc);
+            judge_decode(&b.0, b.1, loc);
+        }).distinct());
     }
 }
